@@ -71,6 +71,8 @@ type World struct {
 
 	// Stop, if set, ends Advance early (violation found / wall budget exhausted).
 	Stop func() bool
+	// Round, if set, runs at every quiescent point inside Settle (between delivery rounds).
+	Round func()
 
 	// FaultPlan, if set, decides the fate of every durable operation (called under Mu).
 	FaultPlan func(op *DiskOp) Decision
